@@ -37,6 +37,8 @@ def corpus():
         mid = w + (((e - w) % 360.0) or 360.0) / 3.0
         lons = [w, e, mid, w, e, (w + 360.0) if w + 360.0 <= 360.0 else (w - 360.0) if w - 360.0 >= -180.0 else w]
         cs.append(mk(w, e, -10.1, 10.3, lons, [0.1] * len(lons), "decimal-degrees"))
+    for w, e, x in [(-20.0, 20.0, 350.0), (350.0, 10.0, -5.0), (0.0, 200.0, -170.0), (-70.0, -60.0, 295.0), (10.0, 30.0, 20.0), (170.0, -170.0, 180.0), (0.0, 360.0, -90.0)]:
+        cs.append(mk(w, e, -10.0, 10.0, [x], [2.5], "one-point"))
     cs.append(mk(-181.0, 0.0, 0.0, 1.0, [], [], "invalid"))
     cs.append(mk(0.0, 361.0, 0.0, 1.0, [], [], "invalid"))
     cs.append(mk(-100.0, 300.0, 0.0, 1.0, [], [], "invalid"))
@@ -108,6 +110,15 @@ def generate(rng, tier):
 def impl(case):
     w, e, s, n, lons, lats = case["args"]
     region = (w, e, s, n)
+    if len(lons) == 1 and (int(abs(w) * 8) + int(abs(e) * 8)) % 2 == 0:
+        # ONE point handed over as plain numbers (a station's longitude and latitude): wrapped like any array
+        r = C.call(vd.longitude_continuity, [float(lons[0]), float(lats[0])], region)
+        if C.is_err(r):
+            return r
+        coords, reg = r
+        if len(coords) != 2 or float(coords[1]) != float(lats[0]):
+            return ["err", "Other:latitudes_or_extra_coordinates_changed"]
+        return [[float(v) for v in reg], [float(coords[0])], [float(coords[1])]]
     if lons:
         lo = np.array(lons)
         la = np.array(lats)
